@@ -297,6 +297,23 @@ theorem tree_get_stored (root : Node) (p : List (List Nat)) (k : List Nat) (n : 
         simpa [lookupKid] using hl
       simp [lookupKid, List.find?_append, hnone]
 
+/-- `node(dst).kids.Insert(k, node(src))` with the value argument anywhere in the tree - in particular an
+element of the very table it is inserted into, at any fill level: afterwards the destination stores under
+`k` exactly the argument's former value, whether `k` was new or present. -/
+theorem tree_insert_from_stored (root : Node) (d s : List (List Nat)) (k : List Nat) (dn sn : Node)
+    (hd : getAt root d = some dn) (hs : getAt root s = some sn) :
+    ∃ root' dn', (TreeOp.insertFrom d k s).step root = some root' ∧ getAt root' d = some dn' ∧
+      lookupKid dn'.kids k = some sn := by
+  refine ⟨setKidsAt root d (putKid dn.kids k sn), ⟨dn.tag, putKid dn.kids k sn⟩,
+    by simp [TreeOp.step, hd, hs], ?_, ?_⟩
+  · rw [setKidsAt_eq _ hd]; exact getAt_setAt_self d root _ hd
+  · simp only [putKid]
+    cases hl : lookupKid dn.kids k with
+    | some c => exact lookupKid_setKid_self sn hl
+    | none =>
+      have hnone : List.find? (fun e => e.1 == k) dn.kids = none := by simpa [lookupKid] using hl
+      simp [lookupKid, List.find?_append, hnone]
+
 end Tree
 
 end Qentem.Props.C13
